@@ -25,9 +25,10 @@ VARIABLES cat,        \* the catalog: sequence of event identities
           preds,      \* ghost: filter statements in force on cat since init0
           docPreds, filePreds,     \* ghost: the same for the stored snapshots
           init0,      \* ghost: the catalog the session started from
+          fscale,     \* the gridded forecast the catalog is evaluated against: its scale factor in halves (1 = 1/2, 2 = 1, 4 = 2)
           hist
 
-vars == <<cat, region, doc, file, last, preds, docPreds, filePreds, init0, hist>>
+vars == <<cat, region, doc, file, last, preds, docPreds, filePreds, init0, fscale, hist>>
 
 NE == 6
 Cell == <<1, 2, 0, 1, 2, 2>>
@@ -59,11 +60,13 @@ NoDoc == [cat |-> <<-1>>, region |-> FALSE]
 NoFile == <<-1>>
 
 Ops == {"f_m1", "f_m2", "f_t2", "f_tlt3", "f_list", "filter_spatial", "bind_region", "sc", "mc", "smc",
-        "ntest", "ltest", "stest", "mtest", "to_dict", "from_dict", "write_ascii", "load_ascii"}
+        "ntest", "ltest", "stest", "mtest", "to_dict", "from_dict", "write_ascii", "load_ascii",
+        "scale_half", "scale_one", "scale_two"}
 
 Init == /\ cat \in Inits /\ init0 = cat
         /\ region = FALSE /\ doc = NoDoc /\ file = NoFile /\ last = None
         /\ preds = {} /\ docPreds = {} /\ filePreds = {} /\ hist = <<>>
+        /\ fscale = 2
 
 Filter(P) == /\ cat' = Keep(cat, P) /\ preds' = preds \cup P /\ last' = None
              /\ UNCHANGED <<region, doc, file, docPreds, filePreds>>
@@ -74,7 +77,9 @@ Do(op) ==
     /\ Len(hist) < MaxHist
     /\ hist' = Append(hist, op)
     /\ init0' = init0
-    /\ CASE op = "f_m1" -> Filter({"m1"})
+    /\ fscale' = (CASE op = "scale_half" -> 1 [] op = "scale_one" -> 2 [] op = "scale_two" -> 4 [] OTHER -> fscale)   \* absolute, not cumulative
+    /\ CASE op \in {"scale_half", "scale_one", "scale_two"} -> Observe(None)
+         [] op = "f_m1" -> Filter({"m1"})
          [] op = "f_m2" -> Filter({"m2"})
          [] op = "f_t2" -> Filter({"t2"})
          [] op = "f_tlt3" -> Filter({"tlt3"})
@@ -86,7 +91,8 @@ Do(op) ==
          [] op = "mc" -> Observe(IF region THEN Grid("mc", G(KSeq(cat))!ImplMC(KSeq(cat))) ELSE Raised)
          [] op = "smc" -> Observe(IF region THEN Grid("smc", G(KSeq(cat))!ImplSMC(KSeq(cat))) ELSE Raised)
          \* evaluations against a gridded forecast on the same region
-         [] op = "ntest" -> Observe(Out("n", <<Len(cat)>>))                 \* the observed number is the event count
+         \* the observed number is the event count; the forecast number is the scaled total (recorded in halves)
+         [] op = "ntest" -> Observe(Out("n", <<Len(cat), fscale'>>))
          [] op = "ltest" -> Observe(IF region THEN Grid("smc", G(KSeq(cat))!ImplSMC(KSeq(cat))) ELSE Raised)
          [] op = "stest" -> Observe(IF region THEN Grid("sc", G(KSeq(cat))!ImplSC(KSeq(cat))) ELSE Raised)
          \* (the M-test passes the forecast's magnitude bins to the counting call: no bound region needed)
@@ -122,7 +128,9 @@ CountsBounded == last.k \in {"sc", "mc", "smc"} => SumSeq(last.v, Len(last.v)) <
 FullGridConserves == last.k = "smc" => SumSeq(last.v, 4) = Len(cat)
 NTestSeesEverything == last.k = "n" => last.v[1] = Len(cat)
 \* observations do not change the object; filters only remove; nothing but a load can add events
-ObservationsArePure == [][\A op \in {"sc", "mc", "smc", "ntest", "ltest", "stest", "mtest", "to_dict", "write_ascii"} :
+EvaluationsLeaveTheForecast == [][\A op \in Ops \ {"scale_half", "scale_one", "scale_two"} : hist' = Append(hist, op) => fscale' = fscale]_vars
+ObservationsArePure == [][\A op \in {"sc", "mc", "smc", "ntest", "ltest", "stest", "mtest", "to_dict", "write_ascii",
+                                     "scale_half", "scale_one", "scale_two"} :
                              hist' = Append(hist, op) => cat' = cat /\ region' = region]_vars
 FiltersOnlyRemove == [][\A op \in {"f_m1", "f_m2", "f_t2", "f_tlt3", "f_list", "filter_spatial"} :
                              hist' = Append(hist, op) => Len(cat') <= Len(cat) /\ Keep(cat', preds') = cat']_vars
